@@ -70,17 +70,17 @@ Definition tvals (k : bytes) (j : jv) : list jv := vals k (omem j).
 Definition strs (j : jv) : list bytes :=
   flat_map (fun e => match e with JStr s => [s] | _ => [] end) (aelems j).
 
-(** a digest's paths must be a non-empty array of strings
-    (3.5.2 "an array containing the content paths of files ... that have content with the given digest") *)
-Definition path_array_ok (v : jv) : bool :=
-  match v with
-  | JArr l => negb (nil_b l) && forallb is_str l
-  | _ => false
-  end.
-
-(** an array of strings, possibly empty (fixity block values) *)
+(** the value of a digest key is an array of strings (3.5.2, 3.5.3.1, 3.5.4) *)
 Definition str_array_ok (v : jv) : bool :=
   match v with JArr l => forallb is_str l | _ => false end.
+
+(** Two things no MUST of the specification forbids and which are therefore NOT rules:
+    an empty array as the value of a manifest or state digest (3.5.2 E092 / 3.5.3.1 only fix
+    "an array containing the ... paths ... that have content with the given digest"), and the same
+    digest twice as a key of one state object (RFC 8259 section 4: names SHOULD be unique; the
+    once-only clauses E096 / E097 speak of the manifest and fixity blocks only).  The named
+    fields (id, head, created, ...) and version names are different: the specification speaks of
+    THE value of the key, so a repeated field is not the described structure (E033). *)
 
 (** * The blocks of an inventory *)
 Definition K_id := b "id".
@@ -314,9 +314,8 @@ Definition rules : list rule := [
   R 94  (AB (fun vb => forallb is_str (vals K_message (omem vb))));
   R 54  (AB (fun vb => forallb user_ok (vals K_user (omem vb))));
   (* state *)
-  R 33  (AB (fun vb => nodup_b (keys (state_m vb))));
   R 50  (fun _ j => all_blocks (fun vb => forallb (fun d => mem_b d (keys (manifest_m j))) (keys (state_m vb))) j);
-  R 51  (AB (fun vb => forallb (fun dv => path_array_ok (snd dv)) (state_m vb)));
+  R 51  (AB (fun vb => forallb (fun dv => str_array_ok (snd dv)) (state_m vb)));
   R 52  (AB (fun vb => forallb path_ok (logical_paths vb)));
   R 95  (AB (fun vb => nodup_b (logical_paths vb)));
   R 95  (AB (fun vb => prefix_free (logical_paths vb)));
@@ -327,7 +326,7 @@ Definition rules : list rule := [
                                       | JStr a => negb (content_alg a) || forallb (digest_ok a) (keys (manifest_m j))
                                       | _ => true
                                       end) (tvals K_alg j));
-  R 92  (fun _ j => forallb (fun dv => path_array_ok (snd dv)) (manifest_m j));
+  R 92  (fun _ j => forallb (fun dv => str_array_ok (snd dv)) (manifest_m j));
   R 99  (fun _ j => forallb path_ok (content_paths j));
   R 101 (fun _ j => nodup_b (content_paths j));
   R 101 (fun _ j => prefix_free (content_paths j));
@@ -412,7 +411,7 @@ Definition declaration (es : list (bytes * node)) : list ecode * option spec_ver
   | _ => ([3], None)
   end.
 
-(** ** 3.6 sidecar:  DIGEST 1*(SP / HTAB) "inventory.json" [LF] *)
+(** ** 3.6 sidecar:  DIGEST 1*(SP / HTAB) "inventory.json" ; trailing white space is not significant *)
 Fixpoint span_hex (s : bytes) : bytes * bytes :=
   match s with
   | c :: r => if is_hex c then let '(a, rest) := span_hex r in (c :: a, rest) else ([], s)
@@ -424,6 +423,10 @@ Fixpoint skip_blank (s : bytes) : bytes :=
   | [] => []
   end.
 
+(** what may follow the file name: blanks and line ends *)
+Definition is_trail (c : ascii) : bool :=
+  (code c =? 32) || (code c =? 9) || (code c =? 10) || (code c =? 13).
+
 Definition sidecar_digest (c : bytes) : option bytes :=
   let '(d, r) := span_hex c in
   if is_empty d then None
@@ -431,7 +434,7 @@ Definition sidecar_digest (c : bytes) : option bytes :=
        | sp :: _ =>
            if (code sp =? 32) || (code sp =? 9) then
              let t := skip_blank r in
-             if bytes_eqb t (b "inventory.json") || bytes_eqb t (b "inventory.json" ++ [NL])
+             if starts_with (b "inventory.json") t && forallb is_trail (skipn 14 t)
              then Some (lower d) else None
            else None
        | [] => None
